@@ -26,9 +26,12 @@ RULE = ("items generated from the seed; 3 of 4 are one pricing on a fresh engine
 MODELLED = ["standard Engine.price single-process loop, MCPath.process/discount, Product.__call__, MCStatistics.price/mc_stddev, "
             "tools.mean/stddev/mc_stddev, ControlVariates.helper_compute_coefficients/compute_coefficients: hand model "
             "Model/McStats.v tied by vm_compute correspondence",
-            "np.linalg.inv is modelled by its specification (returns the solution of the normal equations); the closed forms for one "
+            "b* = np.linalg.lstsq on the correlation matrix (fix-mc5 38cca5a) is modelled by its specification (returns a solution of the normal equations, also for collinear controls); the closed forms for one "
             "and two controls are proved to satisfy it; three or more controls have NO b* in the model (exact Fraction solve in the "
-            "oracle); conditioning of the numerical inverse is not covered (cases with |det Sigma_X| < 1e-3 * prod diag are skipped and counted)",
+            "oracle). For EVERY case (no skip) the oracle checks var(adj) <= var(raw), price() = mean(adj) and that adj is uncorrelated with every "
+            "control (the b-free form of the normal equations); only the row-by-row comparison with one particular b* is restricted to "
+            "|det Sigma_X| >= 1e-3 * prod diag (b* is not unique for collinear controls)",
+            "spot statistics on in 30% of the engines (stored spot values checked); get_variance() checked against the unbiased variance",
             "the engine's statistics across pricings are state; np.empty is an oracle that may return the previous rows (the executable "
             "model recycles them); n = 1: mc_stddev() is the single number 0.0 whatever d (modelled); n = 0: price() is 0 and "
             "mc_stddev() raises AttributeError ('float' has no 'size') -- recorded in the evidence, not modelled",
@@ -43,6 +46,8 @@ THEOREM_NOTES = {
     "C07_cv_bstar_solves_normal_equations": "closed-form b* for 1 and 2 controls only; 3+ controls are covered by the implementation oracle",
     "C07_repricing_uses_own_paths": "state machine over pricings on one engine: Engine.initialisation allocates a new MCStatistics per pricing, so the "
                                     "previous statistics never enter; tied by replaying pricing sequences (N then M<N, M>N, M=N) on one Engine instance",
+    "C07_repricing_uses_own_paths": "the model has both behaviours of initialisation (new statistics with arbitrary np.empty content / keep the old buffers); "
+                                    "theorem for the code's branch, Example C07_keeping_the_buffers_is_wrong for the other",
     "C07_cv_variance_with_code_b": "composition: the b the code computes for 1-2 controls (guard included) never increases the variance",
     "threshold": "repaired guard (fix-mc3 aaa3e1f): a control is degenerate when variance <= 1e-24 * mean(x^2); modelled as written (degenerate in "
                  "Model/McStats.v), so a changed guard breaks the vm_compute correspondence of the adjusted rows (cases are normalised by the "
